@@ -31,6 +31,8 @@ struct Args {
     replay_dir: String,
     file: Option<String>,
     merge_part: Option<String>,
+    from: u64,
+    out: Option<String>,
 }
 
 fn parse_args() -> Args {
@@ -50,6 +52,8 @@ fn parse_args() -> Args {
         replay_dir: format!("{root}/replays"),
         file: None,
         merge_part: None,
+        from: 0,
+        out: None,
     };
     let mut tier_from_cli = false;
     while let Some(x) = it.next() {
@@ -70,6 +74,8 @@ fn parse_args() -> Args {
             "--evidence" => a.evidence = Some(val()),
             "--replay-dir" => a.replay_dir = val(),
             "--merge-part" => a.merge_part = Some(val()),
+            "--from" => a.from = val().parse().unwrap_or_else(|_| usage()),
+            "--out" => a.out = Some(val()),
             s if !s.starts_with("--") && a.file.is_none() => a.file = Some(s.to_string()),
             _ => usage(),
         }
@@ -91,6 +97,7 @@ fn run<W: World>(w: W, a: &Args, digest_only: bool) -> i32 {
     let cfg = RunConfig {
         tier: a.tier,
         seed: a.seed,
+        first_run: a.from,
         runs: a.runs.unwrap_or_else(|| world.default_runs(a.tier)),
         workers: a.workers.max(1),
         evidence_path: if digest_only { None } else { a.evidence.clone() },
@@ -125,6 +132,35 @@ fn dispatch(prop: &str, a: &Args, digest_only: bool) -> i32 {
     }
 }
 
+fn default_runs_of(prop: &str, tier: Tier) -> u64 {
+    match prop {
+        "C03" => cursor::C03.default_runs(tier),
+        "C12" => cursor::C12.default_runs(tier),
+        "C16" => cursor::C16.default_runs(tier),
+        "C11" => integ::C11.default_runs(tier),
+        "C19" => bytesrc::C19.default_runs(tier),
+        "C18" => pipe::C18.default_runs(tier),
+        _ => 0,
+    }
+}
+
+fn scenario_json_of(prop: &str, run_seed: u64, tier: Tier) -> serde_json::Value {
+    fn g<W: World>(w: W, s: u64, t: Tier) -> serde_json::Value {
+        let mut r = rng::Rng::new(s);
+        let scn = w.generate(&mut r, t);
+        w.to_json(&scn)
+    }
+    match prop {
+        "C03" => g(cursor::C03, run_seed, tier),
+        "C12" => g(cursor::C12, run_seed, tier),
+        "C16" => g(cursor::C16, run_seed, tier),
+        "C11" => g(integ::C11, run_seed, tier),
+        "C19" => g(bytesrc::C19, run_seed, tier),
+        "C18" => g(pipe::C18, run_seed, tier),
+        _ => serde_json::Value::Null,
+    }
+}
+
 fn main() {
     install_silent_panic_hook();
     let a = parse_args();
@@ -136,6 +172,47 @@ fn main() {
         "digest" => {
             let prop = a.prop.clone().unwrap_or_else(|| usage());
             dispatch(&prop, &a, true)
+        }
+        "locate-abort" => {
+            // The batch terminated abnormally (abort, stack overflow, allocation failure): bisect the run
+            // index range in child processes until the single culprit run is found, and write it as a replay.
+            let prop = a.prop.clone().unwrap_or_else(|| usage());
+            let exe = std::env::current_exe().expect("current_exe");
+            let total = a.runs.unwrap_or_else(|| default_runs_of(&prop, a.tier));
+            let aborts = |lo: u64, hi: u64| -> bool {
+                let st = std::process::Command::new(&exe)
+                    .args(["digest", "--prop", &prop, "--tier", a.tier.name(), "--seed", &a.seed.to_string(), "--from", &lo.to_string(), "--runs", &hi.to_string()])
+                    .stdout(std::process::Stdio::null())
+                    .stderr(std::process::Stdio::null())
+                    .status();
+                !matches!(st.map(|s| s.code()), Ok(Some(0)) | Ok(Some(1)) | Ok(Some(2)))
+            };
+            let (mut lo, mut hi) = (0u64, total);
+            if !aborts(lo, hi) {
+                eprintln!("locate-abort: the batch does not abort when re-run");
+                std::process::exit(0);
+            }
+            while hi - lo > 1 {
+                let mid = lo + (hi - lo) / 2;
+                if aborts(lo, mid) {
+                    hi = mid;
+                } else {
+                    lo = mid;
+                }
+            }
+            let rs = rng::run_seed(a.seed, &prop, lo);
+            let scn = scenario_json_of(&prop, rs, a.tier);
+            let doc = serde_json::json!({
+                "property": prop, "class": "abort",
+                "detail": "the process terminated abnormally (abort / stack overflow / allocation failure) while executing this run",
+                "seed": rs, "base_seed": a.seed, "run_index": lo, "tier": a.tier.name(), "minimised": false,
+                "scenario": scn,
+            });
+            if let Some(out) = &a.out {
+                let _ = std::fs::write(out, serde_json::to_string_pretty(&doc).unwrap());
+            }
+            println!("abort located at run_index={lo} seed={rs:#x}");
+            1
         }
         "replay" => {
             let file = a.file.clone().unwrap_or_else(|| usage());
